@@ -214,6 +214,11 @@ func (x *X) FillBatch(b *pebble.Batch, op Op, defVal string) error {
 		if err := b.Set([]byte(PadKey), pad, nil); err != nil {
 			return err
 		}
+	} else if op.Pad > 0 {
+		// an ordinary (memtable) batch whose WAL record spans several 32 KiB blocks
+		if err := b.Set([]byte(PadKey), bytes.Repeat([]byte{'p'}, op.Pad), nil); err != nil {
+			return err
+		}
 	}
 	return nil
 }
